@@ -120,16 +120,23 @@ Proof.
 Qed.
 
 (* ---- the loops: the premises of ds_nested_loops at row 1, and of ds_loop_empty at row 13 *)
+Definition n_x := S_ "x".   Definition n_i := S_ "i".   Definition n_cx := S_ "cx".   Definition n_y := S_ "y".
+Definition ex_outer_elems : list str := [S_ "a"; S_ "b"].
+(* the inner head as read in the two copies of the outer body *)
+Definition ex_heads : list irow :=
+  [mkI KBeginFor true (S_ "Ma") [] [n_cx; n_x] [S_ "p"; S_ "q"]; mkI KBeginFor true (S_ "Mb") [] [n_cx; n_x] [S_ "p"; S_ "q"]].
+(* the copies of the inner body, per outer element *)
+Definition ex_inner : list (list (list raw)) :=
+  [[[l_plain "" "0:p0"]; [l_plain "" "0:q1"]]; [[l_plain "" "1:p0"]; [l_plain "" "1:q1"]]].
+(* the rest of the outer body after the inner loop (the excluded block and row are gone) *)
+Definition ex_tails : list (list raw) := [[l_plain "" "a0 CXVAL"]; [l_plain "" "b1 CXVAL"]].
+Definition ex_after_loops : list raw := [l_plain "" "tail CXVAL"].
+Definition ex_empty_block : list raw := [l_block "E"; end_row; l_plain "" "tail CXVAL"].
 Example nested_loops_nonvacuous :
   exists row1,
-    loop_head Strict ex_ctx (nth 1 ex_rows end_row) row1 (S_ "x") [S_ "i"] /\ i_iter row1 = [S_ "a"; S_ "b"]
-    /\ nested_bodies_of Strict 40 (nth 2 ex_rows end_row) (skipn 3 ex_rows) ex_ctx (S_ "x") (Some (S_ "i")) [S_ "a"; S_ "b"]
-         (S_ "cx") [S_ "x"]
-         [mkI KBeginFor true (S_ "Ma") [] [S_ "cx"; S_ "x"] [S_ "p"; S_ "q"];
-          mkI KBeginFor true (S_ "Mb") [] [S_ "cx"; S_ "x"] [S_ "p"; S_ "q"]]
-         [[[l_plain "" "0:p0"]; [l_plain "" "0:q1"]]; [[l_plain "" "1:p0"]; [l_plain "" "1:q1"]]]
-         [[l_plain "" "a0 CXVAL"]; [l_plain "" "b1 CXVAL"]]
-         (skipn 13 ex_rows)
+    loop_head Strict ex_ctx (nth 1 ex_rows end_row) row1 n_x [n_i] /\ i_iter row1 = ex_outer_elems
+    /\ nested_bodies_of Strict 40 (nth 2 ex_rows end_row) (skipn 3 ex_rows) ex_ctx n_x (Some n_i) ex_outer_elems
+         n_cx [n_x] ex_heads ex_inner ex_tails (skipn 13 ex_rows)
     /\ ds Strict 41 (skipn 13 ex_rows) ex_ctx BRoot false = ROk (skipn 13 ex_out, [])
     /\ ds Strict 42 (skipn 1 ex_rows) ex_ctx BRoot false = ROk (skipn 1 ex_out, []).
 Proof.
@@ -156,10 +163,10 @@ Qed.
 
 Example empty_loop_nonvacuous :
   exists row,
-    loop_head Strict ex_ctx (nth 13 ex_rows end_row) row (S_ "y") [] /\ i_iter row = []
+    loop_head Strict ex_ctx (nth 13 ex_rows end_row) row n_y [] /\ i_iter row = []
     /\ ds Strict 40 (skipn 14 ex_rows) ex_ctx BFor true = ROk ([], skipn 16 ex_rows)
-    /\ ds Strict 40 (skipn 16 ex_rows) ex_ctx BRoot false = ROk ([l_plain "" "tail CXVAL"], [])
-    /\ ds Strict 41 (skipn 13 ex_rows) ex_ctx BRoot false = ROk ([l_block "E"; end_row; l_plain "" "tail CXVAL"], []).
+    /\ ds Strict 40 (skipn 16 ex_rows) ex_ctx BRoot false = ROk (ex_after_loops, [])
+    /\ ds Strict 41 (skipn 13 ex_rows) ex_ctx BRoot false = ROk (ex_empty_block, []).
 Proof.
   eexists. split.
   { repeat split; try (vm_compute; reflexivity). discriminate. }
@@ -174,7 +181,7 @@ Example scope_pop_refuted :
   parse_block Strict ScopePop EmptySkip true ex_rows (sheet_fuel ex_rows) (mkP 0 ex_ctx []) BRoot false = RErr Undefined
   /\ desugar Strict ex_ctx ex_rows = ROk ex_out
   /\ exists s, parse_block Lenient ScopePop EmptySkip true ex_rows (sheet_fuel ex_rows) (mkP 0 ex_ctx []) BRoot false = ROk s
-       /\ cget (p_ctx s) (S_ "cx") = None
+       /\ cget (p_ctx s) n_cx = None
        /\ shape (rev (p_log s)) <> Some ex_shape
        /\ desugar Lenient ex_ctx ex_rows = ROk ex_out.
 Proof.
